@@ -511,6 +511,9 @@ func runGamm(t *testing.T, seed int64, n int, dir string) {
 			if e.message(i) {
 				done++
 			}
+			if r.Intn(25) == 0 {
+				e.creatorWhitelistProbe()
+			}
 		}
 	}
 	o.Close(nil)
